@@ -63,7 +63,7 @@ class C15(Check):
                    'frames fit the prefix size (len < 2**(8*prefix_size))']
     ANCHORS = ['rxsci/framing/line.py', 'rxsci/framing/length_prefix.py']
     REQUIRED_TAGS = ['line', 'lp1', 'lp2', 'lp4', 'lp8', 'little', 'big', 'empties', 'trunc',
-                     'cut-in-prefix', 'cut-in-frame', 'empty-list', 'empty-item']
+                     'cut-in-prefix', 'cut-in-frame', 'empty-list', 'empty-item', 'stream>64KiB']
 
     _ops = {}
 
@@ -145,6 +145,23 @@ class C15(Check):
         # (c) random long streams, random cut sets, empty chunks, truncations
         for k in range(nrand):
             cfg = cfgs[rng.randrange(len(cfgs))]
+            if k % 150 == 75:
+                # scale: streams of 100-400 KiB (beyond 64 KiB buffers), items up to 70 KiB, fixed-size and random chunks
+                big = cfgs[(k // 150) % len(cfgs)]
+                if big['framing'] == 'lp' and big['prefix'] == 1:
+                    big = cfgs[0]
+                items = []
+                for _ in range(rng.choice([4, 40, 300])):
+                    ln = rng.choice([0, 1, 200, 1000, 5000, 70000]) if big['framing'] == 'line' or big['prefix'] >= 4 else rng.choice([0, 1, 200, 1000, 60000])
+                    if big['framing'] == 'line':
+                        items.append(''.join(rng.choice('ab \x00\r\xe9') for _ in range(min(ln, 3000))) * max(1, ln // 3000))
+                    else:
+                        items.append(rng.randbytes(ln))
+                s = _reference_stream(big, items)
+                size = rng.choice([1000, 4096, 10000, 65536, 70001])
+                cuts = tuple(range(size, len(s), size)) if rng.random() < 0.7 else chunking.random_cuts(rng, len(s), 30)
+                yield self._mk(big, items, cuts, empties=False)
+                continue
             items = self._rand_items(rng, cfg, 20, 300)
             s = _reference_stream(cfg, items)
             cuts = chunking.random_cuts(rng, len(s), maxcuts=rng.choice([1, 3, 8, 40]))
@@ -182,6 +199,8 @@ class C15(Check):
         if framed.err is not None or not framed.done:
             return out.fail('frame-failed', error=repr(framed.err), done=framed.done)
         stream = empty.join(framed.out)
+        if len(stream) > 65536:
+            out.tags.append('stream>64KiB')
         if stream != _reference_stream(case, items):
             return out.fail('frame-output-not-the-framed-items', got=stream)
         out.observed['frames'] += len(framed.out)
